@@ -1,11 +1,11 @@
 #!/bin/bash
-# usage: ./run_all.sh [tier] [ids...]  — runs the registered checks one after the other, logs under /var/tmp/runall/
+# usage: ./run_all.sh [tier] [ids...]  — runs the registered checks one after the other, logs under $RUNALL_LOGDIR (default /var/tmp/runall/)
 tier=${1:-quick}; shift
 ids="$@"; [ -z "$ids" ] && ids=$(cat /verif/manifest.d/ENABLED)
-mkdir -p /var/tmp/runall
+L=${RUNALL_LOGDIR:-/var/tmp/runall}; mkdir -p $L
 for c in $ids; do
   s=$(date +%s)
-  ./check $c $tier > /var/tmp/runall/$c.log 2>&1; rc=$?
+  ./check $c $tier > $L/$c.log 2>&1; rc=$?
   e=$(date +%s)
-  echo "$c rc=$rc wall=$((e-s))s viol=$(grep -c '^VIOLATION' /var/tmp/runall/$c.log) known=$(grep -c '^KNOWN-FINDING' /var/tmp/runall/$c.log) $(grep 'done:' /var/tmp/runall/$c.log | tail -1 | sed 's/.*done: //')"
+  echo "$c rc=$rc wall=$((e-s))s viol=$(grep -c '^VIOLATION' $L/$c.log) known=$(grep -c '^KNOWN-FINDING' $L/$c.log) $(grep 'done:' $L/$c.log | tail -1 | sed 's/.*done: //')"
 done
